@@ -1,6 +1,6 @@
 (* Per-run obligation: every control-flow path of every Bundle operation, as translated
    from /repo/bundle by harness/cmd/lockprog on this run, is a flat lock program. *)
-From Coq Require Import List Bool String.
+From Coq Require Import List Bool String Arith PeanoNat.
 From Mac Require Import Model.RWLock Generated.LockProgs Proofs.RWLockProofs.
 Import ListNotations.
 
@@ -54,4 +54,68 @@ Proof.
   destruct (flat_safe _ _ F Hs) as [L P]. split; [exact L|]. split; [exact P|]. split.
   - intros pre t post E. exact (race_free _ _ F Hs pre t post E).
   - exact (flat_completes _ _ F Hs).
+Qed.
+
+(* ---- atomicity: every path of every operation is at most ONE critical section.  An operation whose accesses are
+   spread over two sections lets another operation take effect in between: its result then mixes two states of the
+   token list ("modifications take effect atomically ... readers see either the old or the new token list"). *)
+Definition is_acq (i : instr) : bool := match i with Acq _ => true | _ => false end.
+Definition count_acq (p : prog) : nat := List.length (filter is_acq p).
+Definition all_single_section (l : list (string * list prog)) : bool :=
+  forallb (fun e => forallb (fun p => Nat.leb (count_acq p) 1) (snd e)) l.
+
+Lemma lockprogs_single_section_l : all_single_section lockprogs = true.
+Proof. vm_compute. reflexivity. Qed.
+
+Lemma flat_in_decomp m p : flat_in m p = true ->
+  exists body q, p = body ++ Rel m :: q /\ Forall (fun i => i = Rd \/ i = Wr) body /\
+                 (m = R -> Forall (fun i => i = Rd) body) /\ flat_out q = true.
+Proof.
+  induction p as [|i p IH]; cbn [flat_in]; [discriminate|].
+  destruct i as [m'|m'| |].
+  - discriminate.
+  - intros H. exists [], p. cbn [app].
+    destruct m, m'; try discriminate; (split; [reflexivity|split; [constructor|split; [intros _; constructor|exact H]]]).
+  - intros H. destruct (IH H) as [body [q [-> [Hb [Hr Hq]]]]]. exists (Rd :: body), q.
+    split; [reflexivity|]. split; [constructor; [now left|exact Hb]|]. split; [|exact Hq].
+    intros Hm. constructor; [reflexivity|exact (Hr Hm)].
+  - destruct m; [discriminate|]. intros H. destruct (IH H) as [body [q [-> [Hb [Hr Hq]]]]]. exists (Wr :: body), q.
+    split; [reflexivity|]. split; [constructor; [now right|exact Hb]|]. split; [|exact Hq].
+    intros Hm. discriminate Hm.
+Qed.
+
+Lemma count_acq_app a b : count_acq (a ++ b) = count_acq a + count_acq b.
+Proof. unfold count_acq. now rewrite filter_app, app_length. Qed.
+
+Lemma flat_out_no_acq q : flat_out q = true -> count_acq q = 0 -> q = [].
+Proof.
+  destruct q as [|i q]; [reflexivity|]. destruct i as [m|m| |]; cbn [flat_out]; try discriminate.
+Qed.
+
+(* a flat path with at most one acquisition is empty or exactly one section holding all of its accesses *)
+Lemma single_section_shape_l p : flat_out p = true -> count_acq p <= 1 ->
+  p = [] \/ exists m body, p = Acq m :: body ++ [Rel m] /\ Forall (fun i => i = Rd \/ i = Wr) body /\
+                           (m = R -> Forall (fun i => i = Rd) body).
+Proof.
+  destruct p as [|i p]; [now left|]. destruct i as [m| | |]; cbn [flat_out]; try discriminate.
+  intros H Hc. right. destruct (flat_in_decomp m p H) as [body [q [-> [Hb [Hr Hq]]]]].
+  assert (q = []) as ->.
+  { apply flat_out_no_acq; [exact Hq|].
+    change (Acq m :: body ++ Rel m :: q) with ([Acq m] ++ body ++ [Rel m] ++ q) in Hc.
+    rewrite !count_acq_app in Hc. unfold count_acq at 1 in Hc. cbn [filter is_acq List.length] in Hc.
+    destruct (count_acq q); [reflexivity|]. exfalso.
+    rewrite Nat.add_comm in Hc. cbn in Hc. rewrite !Nat.add_succ_r in Hc. inversion Hc as [|? Hc']. inversion Hc'. }
+  exists m, body. repeat split; assumption.
+Qed.
+
+Lemma bundle_ops_atomic_l name paths p :
+  In (name, paths) lockprogs -> In p paths ->
+  p = [] \/ exists m body, p = Acq m :: body ++ [Rel m] /\ Forall (fun i => i = Rd \/ i = Wr) body /\
+                           (m = R -> Forall (fun i => i = Rd) body).
+Proof.
+  intros He Hp. apply single_section_shape_l.
+  - pose proof all_paths_flat as F. rewrite Forall_forall in F. apply F. unfold all_paths. apply in_flat_map.
+    exists (name, paths). split; [exact He|exact Hp].
+  - pose proof lockprogs_single_section_l as H. unfold all_single_section in H. rewrite forallb_forall in H.
+    specialize (H _ He). cbn [snd] in H. rewrite forallb_forall in H. specialize (H _ Hp). now apply Nat.leb_le in H.
 Qed.
